@@ -125,7 +125,7 @@ def AQ.devComplete (q : AQ) (i : Nat) (data : List Nat) (len : Nat) : Option AQ 
   match q.posted[i]? with
   | none => none
   | some b =>
-    some { q with posted := q.posted.eraseIdx i,
+    some { q with posted := q.posted.take i ++ q.posted.drop (i + 1),
                   used := q.used ++ [({ b with data := if b.writable then data.take b.cap else b.data }, len)] }
 
 /-- The byte the harness HAL pre-fills device-writable bounce buffers with: what the driver reads
